@@ -3,6 +3,7 @@ import itertools
 
 import bvsym as sx
 from bvsym import core
+from .envpatch import EnvPatch
 from .common import FakeSock, KeySource, Obligation, cover, new_ws, quiet_logging, server_frame
 
 PROPERTY = "C04"
@@ -194,8 +195,8 @@ def a_reconnect(lost, fire):
     sx.assume(sx.Or(op == 1, op == 2))
     p1, p2 = sx.sym_bytes("p", 2), sx.sym_bytes("q", 1)
     second = sx.cat(sx.to_bytes_be(op, 1), bytes([2]), p1, bytes([0x80, 1]), p2)
-    real_os = HS.os._real if isinstance(HS.os, FakeOs) else HS.os
-    HS.os = FakeOs(real_os, lambda k: bytes(range(k)))
+    ep = EnvPatch()
+    ep.urandom(lambda k: bytes(range(k)))
     got = []
     try:
         ws = new_ws(None, fire_cont_frame=fire, skip_utf8_validation=True)
@@ -223,7 +224,7 @@ def a_reconnect(lost, fire):
             sx.require(False, "receive on the re-connected object raised %s" % type(e).__name__, lost=lost, fire=fire)
             return
     finally:
-        HS.os = real_os
+        ep.restore()
     if fire:
         sx.require(len(got) == 2, "each fragment of the new connection's message is delivered once", got=len(got), lost=lost)
         if len(got) == 2:
